@@ -5,7 +5,9 @@ configuration (prefix / suffix / stop sequences), one text, one end-of-stream pr
 mode, `push_chunk` or `on_llm_new_token` feeding, EVERY chunking of the text (all 2^(n-1) for short texts,
 sampled for long ones) is pushed through a fresh handler; the items that reach the queue (or the piped
 handler's queue), `completion` and the finished flag are compared item by item with the Lean model
-(`Models/Stream.lean`, the repaired handler of fixes/C18-streaming-chunk-invariance.diff).
+(`Models/Stream.lean`, the repaired handler of fixes/C18-streaming-chunk-invariance.diff) and, where the
+implementation departs from it (unpatched tree), with `Models/StreamAsIs.lean` (the handler as it is):
+inside the region of an open finding the code must still behave like the as-is model.
 Oracle: written from the property statement — the concatenation of the delivered chunks and `completion`
 both equal `expected(text)` = drop the prefix, cut at the first stop sequence, drop the suffix — for every
 chunking (hence identical across chunkings).
@@ -36,6 +38,18 @@ ASSUMPTIONS = [
 EXHAUSTIVE = {"quick": True, "thorough": True}
 
 ENDS = ["empty", "none", "llm_end", "empty+llm_end"]
+
+
+def translate():
+    """No generated data for C18 (the patterns are run-time configuration); record which source is modelled."""
+    from ..translate import util
+
+    tree = util.parse("nemoguardrails/streaming.py")
+    fps = {}
+    for name in ("push_chunk", "_process", "on_llm_end", "on_llm_new_token"):
+        fps[name] = util.fingerprint(util.find_def(tree, name, cls="StreamingHandler"))
+    has_fix = any(getattr(n, "name", None) == "_remove_suffix_at_end" for n in util.find_def(tree, "StreamingHandler").body)
+    return {"fingerprints": fps, "source": "streaming.py with fixes/C18-streaming-chunk-invariance.diff applied" if has_fix else "streaming.py without the C18 fix (open findings expected)"}
 
 # --------------------------------------------------------------------------------------------- chunkings
 
@@ -185,9 +199,9 @@ def g_malformed_case(rng):
 
 def gen_cases(rng, tier):
     if tier == "quick":
-        n_ex, maxlen, n_long, ns, n_mal = 700, 7, 250, 14, 60
+        n_ex, maxlen, n_long, ns, n_mal = 5000, 7, 2500, 14, 400
     else:
-        n_ex, maxlen, n_long, ns, n_mal = 5000, 10, 20000, 22, 1500
+        n_ex, maxlen, n_long, ns, n_mal = 8000, 10, 25000, 22, 2000
     cases = []
     for _ in range(n_ex):
         # lengths are spread: the upper half of the budget goes to the maximal length
